@@ -5,6 +5,8 @@ import (
 	"fmt"
 	"go/types"
 	"math/big"
+	"sort"
+	"strings"
 )
 
 // MaxLen is the stated memory assumption A-mem: no slice/string is longer than 2^48.
@@ -31,6 +33,7 @@ type Val struct {
 	El                 []*Val
 	Fn                 *closureInfo // for VFunc values known statically
 	Unique             bool         // slice backed by an array nothing else references
+	Kinds              []string     // VPtr into a tagged struct field: heap kinds of the pointee's cells
 }
 
 type closureInfo struct {
@@ -79,7 +82,25 @@ func basicKind(b *types.Basic) string {
 	return ""
 }
 
+// A heap kind is a base kind ("bool","int","bv8",...,"str8") optionally tagged
+// "@pkg.Type.field": cells of a struct field whose address never escapes live
+// in their own heap array (Burstall/Bornat component model), so that writes to
+// one field cannot affect another. Fields whose address is taken keep the
+// untagged kind of their cells.
+func baseKind(k string) string {
+	if i := strings.IndexByte(k, '@'); i >= 0 {
+		return k[:i]
+	}
+	return k
+}
+
+// fieldAddrEscapes["pkg.Type.field"] is filled by the loader (see scanFieldAddrs).
+var fieldAddrEscapes = map[string]bool{}
+var fieldTagging = false
+var kindsSeen = map[string]bool{}
+
 func kindSort(k string) *Sort {
+	k = baseKind(k)
 	switch k {
 	case "bool":
 		return BoolS
@@ -152,22 +173,41 @@ func cellKinds(t types.Type) []string {
 				r = []string{"int", "int", "int"}
 			} else if k := basicKind(u); k != "" {
 				r = []string{k}
+				if n, isNamed := t.(*types.Named); isNamed && fieldTagging && n.Obj().Pkg() != nil {
+					// cells of a named scalar type are only accessed at that type
+					r = []string{k + "@T:" + shortPkg(n.Obj().Pkg().Path()) + "." + n.Obj().Name()}
+				}
 			} else if u.Kind() == types.UntypedNil {
 				r = []string{"int", "int"}
 			} else {
 				panic(fmt.Sprintf("cellKinds: basic %v", u))
 			}
 		case *types.Pointer:
-			r = []string{"int", "int"}
+			k := refKind("P", t)
+			r = []string{k, k}
 		case *types.Slice:
-			r = []string{"int", "int", "int", "int"}
+			k := refKind("S", t)
+			r = []string{k, k, k, k}
 		case *types.Interface:
-			r = []string{"int", "int"}
+			k := refKind("I", t)
+			r = []string{k, k}
 		case *types.Map, *types.Signature, *types.Chan:
 			r = []string{"int"}
 		case *types.Struct:
+			tn := structName(t)
 			for i := 0; i < u.NumFields(); i++ {
-				r = append(r, cellKinds(u.Field(i).Type())...)
+				ft := u.Field(i).Type()
+				fk := cellKinds(ft)
+				key := tn + "." + u.Field(i).Name()
+				_, innerStruct := ft.Underlying().(*types.Struct)
+				_, ghost := ghostLayout(ft)
+				if fieldTagging && tn != "" && (!innerStruct || ghost) && !fieldAddrEscapes[key] && !arrayOfStructs(ft) {
+					for _, k := range fk {
+						r = append(r, baseKind(k)+"@"+key)
+					}
+				} else {
+					r = append(r, fk...)
+				}
 			}
 		case *types.Array:
 			e := cellKinds(u.Elem())
@@ -183,7 +223,38 @@ func cellKinds(t types.Type) []string {
 		}
 	}
 	layoutCache[t] = r
+	for _, k := range r {
+		kindsSeen[k] = true
+	}
 	return r
+}
+
+// refKind: cells holding references are kept in heaps typed by the Go type of
+// the value they hold (a cell is only ever accessed at its static type), so
+// e.g. the elements of a []*wire.TxOut cannot be confused with any other cells.
+// (Assumes no conversions between pointer types of distinct named types.)
+func refKind(class string, t types.Type) string {
+	if !fieldTagging {
+		return "int"
+	}
+	return "int@" + class + ":" + types.TypeString(t, func(p *types.Package) string { return shortPkg(p.Path()) })
+}
+
+func structName(t types.Type) string {
+	if n, ok := t.(*types.Named); ok && n.Obj().Pkg() != nil {
+		return shortPkg(n.Obj().Pkg().Path()) + "." + n.Obj().Name()
+	}
+	return ""
+}
+
+func arrayOfStructs(t types.Type) bool {
+	if a, ok := t.Underlying().(*types.Array); ok {
+		if _, ok := a.Elem().Underlying().(*types.Struct); ok {
+			return true
+		}
+		return arrayOfStructs(a.Elem())
+	}
+	return false
 }
 
 func sizeOf(t types.Type) int64 {
@@ -289,6 +360,7 @@ func unflatten(t types.Type, ts []*Term) (*Val, []*Term) {
 }
 
 func zeroTerm(kind string) *Term {
+	kind = baseKind(kind)
 	switch kind {
 	case "bool":
 		return False
@@ -417,8 +489,13 @@ func (s *State) setRow(kind string, ref, row *Term) {
 }
 
 // load a value of type t from (ref, off)
-func (s *State) load(t types.Type, ref, off *Term) *Val {
-	ks := cellKinds(t)
+func (s *State) load(t types.Type, ref, off *Term) *Val { return s.loadKinds(t, cellKinds(t), ref, off) }
+
+// loadKinds: as load, with the heap kinds of the cells given explicitly (tagged struct fields).
+func (s *State) loadKinds(t types.Type, ks []string, ref, off *Term) *Val {
+	if ks == nil {
+		ks = cellKinds(t)
+	}
 	ts := make([]*Term, len(ks))
 	for i, k := range ks {
 		ts[i] = s.loadCell(k, ref, Add(off, IntLit(int64(i))))
@@ -427,8 +504,12 @@ func (s *State) load(t types.Type, ref, off *Term) *Val {
 	return v
 }
 
-func (s *State) store(t types.Type, ref, off *Term, v *Val) {
-	ks := cellKinds(t)
+func (s *State) store(t types.Type, ref, off *Term, v *Val) { s.storeKinds(t, cellKinds(t), ref, off, v) }
+
+func (s *State) storeKinds(t types.Type, ks []string, ref, off *Term, v *Val) {
+	if ks == nil {
+		ks = cellKinds(t)
+	}
 	ts := flatten(v, nil)
 	if len(ts) != len(ks) {
 		panic(fmt.Sprintf("store: %v has %d cells, value has %d", t, len(ks), len(ts)))
@@ -604,4 +685,29 @@ func normStrings(v *Val) int {
 		}
 	}
 	return n
+}
+
+// fieldKinds: heap kinds of the cells of field i of struct type st (named type nt).
+func fieldKinds(nt types.Type, st *types.Struct, i int) []string {
+	all := cellKinds(nt)
+	fo := fieldOffset(st, i)
+	return all[fo : fo+sizeOf(st.Field(i).Type())]
+}
+
+func allKindsNow() []string {
+	base := []string{"bool", "int", "bv8", "bv16", "bv32", "bv64", "fp"}
+	seen := map[string]bool{}
+	var out []string
+	for _, k := range base {
+		seen[k] = true
+		out = append(out, k)
+	}
+	for k := range kindsSeen {
+		if !seen[k] && k != "str8" {
+			seen[k] = true
+			out = append(out, k)
+		}
+	}
+	sort.Strings(out)
+	return out
 }
